@@ -39,17 +39,17 @@ type specChange struct {
 }
 
 type specTxn struct {
-	changes    []specChange
-	insOK      []uint32
-	insFailed  []uint32
-	readOnly   bool
-	resized    map[string]bool // off|col that had a resizing merge
-	keysSet    map[string]int
+	changes     []specChange
+	insOK       []uint32
+	insFailed   []uint32
+	readOnly    bool
+	resized     map[string]bool // off|col that had a resizing merge
+	keysSet     map[string]int
 	filterTaint bool
-	cleared    bool
-	setup      bool
-	selKnown   bool
-	sel        map[uint32]bool
+	cleared     bool
+	setup       bool
+	selKnown    bool
+	sel         map[uint32]bool
 	// a DeleteAll ran over a selection this interpreter could not reconstruct (known-finding taint, platform-
 	// defined filter, in-flight reservations): what the transaction deletes is unknown
 	unknownDeletes bool
